@@ -55,6 +55,7 @@ Checks(e) ==
          Flag(e.released_dirty = 0, "C20_secret_bytes_not_erased_at_release")
          \cup Flag(e.not_released = 0, "C20_container_memory_not_released_or_moved")
          \cup Flag(e.live_changed = 0, "C20_drop_changed_another_live_object")
+         \cup Flag(e.released_while_held = 0, "C20_block_released_while_another_live_object_holds_it")
          \cup Flag(e.leaked_blocks = 0, "C20_secret_left_in_a_block_released_during_construct_clone_or_drop")
     [] OTHER -> {<<l, "TOOL_unknown_event">>}
 
